@@ -3,6 +3,7 @@ package c15snap
 import (
 	"fmt"
 	"testing"
+	"time"
 
 	"github.com/bradenaw/juniper/container/deque"
 	"github.com/bradenaw/juniper/container/xheap"
@@ -13,7 +14,7 @@ import (
 
 var suite = vk.NewSuite("C15")
 
-func TestMain(m *testing.M) { suite.Main(m) }
+func TestMain(m *testing.M) { suite.HangLimit = 60 * time.Second; suite.Main(m) }
 
 // MidOp is an operation applied between Iterate()/Next calls.
 type MidOp struct {
